@@ -4,6 +4,7 @@ import Balm.Impl.Solver
 import Balm.Impl.Asp
 import Balm.DepthAlgo
 import Balm.Impl.CandModel
+import Balm.Impl.SkipExcl
 /-!
 # `balmdriver` – line protocol between the Python harness and the Lean model
 
@@ -332,6 +333,11 @@ def handle (S : Session) (toks : List String) : Session × String :=
       (S, String.intercalate " | " run.2.2)
     | _, _ => bad
   | "CAND" :: rest => (S, handleCand S rest)
+  | "SKIPEXCL" :: sp :: ids :: rest => match parseSpace n sp, parseDump n rest with
+    | some p, some d =>
+      let e := if ids == "-" then [] else (ids.splitOn ",").filterMap (·.toNat?)
+      (S, String.intercalate " " (sortStrs ((skipExclusions d e p).map showSpace).eraseDups))
+    | _, _ => bad
   | "ADOPT" :: rest => match parseDump n rest with
     | some d => ({ S with diag := d.toDiag }, "OK")
     | none => bad
